@@ -93,7 +93,6 @@ def build():
         member('%s_anti' % t, "unsafe impl<'a> %s for AntiStorage<'a>" % trait, 'anti.rs', SM, "impl<'a> %s for AntiStorage<'a>" % trait, trait,
                rules=[('N9', r'\(_: &mut \(\), _: Index\)', '(_v: &mut (), _i: Index)'), ('N9', r"\(_: &'next mut \(\), _: Index\)", "(_v: &'next mut (), _i: Index)")])
         member('%s_drain' % t, "unsafe impl<'a, T> %s for Drain<'a, T> where T: Component," % trait, 'drain.rs', 'src/storage/drain.rs', "impl<'a, T> %s for Drain<'a, T>" % trait, trait)
-    u.struct(SM, ['struct AntiStorage'])
     # MaybeJoin: N15 = the irrefutable tuple pattern in parameter position is unfolded into two field borrows
     MB = 'src/join/maybe.rs'
     u.struct(MB, ['struct MaybeJoin'])
@@ -103,6 +102,23 @@ def build():
         t = 'j' if trait == 'Join' else 'lj'
         member('%s_maybe' % t, "unsafe impl<T> %s for MaybeJoin<T> where T: %s," % (trait, trait), 'maybe.rs', MB, "impl<T> %s for MaybeJoin<T>" % trait, trait,
                fns=('open', 'get', 'is_unconstrained'), rules=N15)
+    # restricted storages: S instantiated at `&C::Storage` / `&mut C::Storage` (N8); Borrow::borrow on a reference is the identity
+    RSF = 'src/storage/restrict.rs'
+    NB = [('N8', r'self\.data\.borrow\(\)', 'self.data'), ('N8', r'self\.data\.borrow_mut\(\)', '&mut *self.data')]
+    for trait in ('Join', 'LendJoin'):
+        t = 'j' if trait == 'Join' else 'lj'
+        member('%s_restricted_ref' % t, "unsafe impl<'rf, C> %s for &'rf RestrictedStorage<'rf, C, &'rf C::Storage> where C: Component," % trait,
+               'restricted_ref.rs', RSF, "impl<'rf, C, S> %s for &'rf RestrictedStorage<'rf, C, S>" % trait, trait, props='C13 C06', rules=NB + [('N8', r"Self::Type<'next>", 'Self::Type')])
+    RMH = "impl<'rf, C, S> LendJoin for &'rf mut RestrictedStorage<'rf, C, S>"
+    RV = "(&'rf mut C::Storage, &'rf Fetch<'rf, EntitiesRes>, &'rf BitSet)"
+    u.fn(RSF, [RMH, 'fn open'], ret='r', props='C13 C06', free='restricted_mut_lend_open', key='lj_restricted_mut::open',
+         rules=NB + [('N12', r'fn open\(self\)', "fn open<'rf, C: Component>(self_: &'rf mut RestrictedStorage<'rf, C, &'rf mut C::Storage>)"),
+                     ('N12', r'Self::Mask', "&'rf BitSet"), ('N12', r'Self::Value', RV), ('N12', r'\bself\b', 'self_')],
+         ensures=[E('mask', 'r.0@ == old(self_).bitset@'), E('same', '*r.1.0 == *old(self_).data && r.1.1 == old(self_).entities && r.1.2 == old(self_).bitset')])
+    u.fn(RSF, [RMH, 'fn get'], ret='r', props='C13 C06', free='restricted_mut_lend_get', key='lj_restricted_mut::get',
+         rules=[('N12', r"fn get<'next>\(", "fn get<'rf, 'next, C: Component>("), ('N12', r'Self::Value', RV), ('N8', r"Self::Type<'next>", "PairedStorageWriteExclusive<'next, C>")],
+         ensures=[E('item', 'r.index == id && *r.storage == *old(value).0 && r.entities == old(value).1 && r.bitset == old(value).2'),
+                  E('link', '*final(value).0 == *final(r.storage) && final(value).1 == old(value).1 && final(value).2 == old(value).2')])
     EF = 'src/world/entity.rs'
     for trait in ('Join', 'LendJoin'):
         t = 'j' if trait == 'Join' else 'lj'
